@@ -26,6 +26,7 @@ C16, second pass on the whole-function models of Pollard P-1 (Model/Pm1Impl.lean
 import Ymq.Lemmas.Pp1Baby
 import Ymq.Lemmas.Pp1NoPanic
 import Ymq.Lemmas.Pm1Walk
+import Ymq.Lemmas.Pm1ExpLarge
 import Ymq.Lemmas.Pm1Baby
 import Ymq.Lemmas.Pm1Giant
 import Ymq.Props.C16Pp1
@@ -122,6 +123,27 @@ theorem pm1_exp_modn_residues (m g e : Nat) (he : e < 2 ^ 64) :
   Ymq.Pm1Impl.expModn_mod g e he
 
 example : expModn (mulm 77) (onem 77) 2 5 = some 32 ∧ (5 : Nat) < 2 ^ 64 := ⟨by decide +kernel, by norm_num⟩
+
+/-- **`exp_modn_large` on the residues of the model**: for every modulus, every `g` and every exponent below `2^1024`
+(`U1024`), no index of `g_smalls` is out of range and the value is `≡ g^e (mod m)` (`exp_modn_large_spec` transported). -/
+theorem pm1_exp_modn_large_residues (m g e : Nat) (he : e < 2 ^ 1024) :
+    ∃ x, expModnLarge (mulm m) (onem m) g e = some x ∧ x ≡ g ^ e [MOD m] :=
+  Ymq.Pm1Impl.expModnLarge_mod g e he
+
+example : 2 ^ 70 + 5 < 2 ^ 1024 :=
+  lt_of_lt_of_le (show 2 ^ 70 + 5 < 2 ^ 71 by norm_num) (Nat.pow_le_pow_right (by decide) (by decide))
+
+/-- hence a flush of stage 1 (`g = exp_modn(g, expblock)` resp. `exp_modn_large(g, expblock_lg)`) never panics when the
+exponent fits its type (`pm1_stage1_divides`, C17: the flushed blocks fit), and raises `g` to that exponent -/
+theorem pm1_apply_ev_no_panic (m g : Nat) (ev : Ymq.Pm1.Ev)
+    (hfit : match ev with | .small e => e < 2 ^ 64 | .large e => e < 2 ^ 1024) :
+    ∃ x, Ymq.Pm1Impl.applyEv m g ev = some x ∧
+      x ≡ g ^ (match ev with | .small e => e | .large e => e) [MOD m] := by
+  cases ev with
+  | small e => exact pm1_exp_modn_residues m g e hfit
+  | large e => exact pm1_exp_modn_large_residues m g e hfit
+
+example : Ymq.Pm1Impl.applyEv 77 2 (.small 6) = some 64 := by decide +kernel
 
 /-- **Gap-table index bounds.** `while gaps.len() <= half { gaps.push(gaps[last] * g2) }` from a non-empty table with
 `gaps[i] ≡ g^(2i+2)`: `gaps[gaps.len() - 1]` is never out of range, afterwards `half < gaps.len()` — the index
